@@ -19,6 +19,16 @@ def step (t : List String) : String :=
   | ["ftunit", n] => match n.toInt? with
       | some n => fmtList toString ((List.range n.toNat).map fun (i : Nat) => ftUnitNum n (i : Int))
       | _ => "bad-op"
+  | ["ftunit0", n] => match n.toInt? with
+      | some n => fmtList toString ((List.range n.toNat).map fun (i : Nat) => ftUnitNumS false n (i : Int))
+      | _ => "bad-op"
+  | ["grid", m, n, i, j, dx] => match m.toInt?, n.toInt?, i.toInt?, j.toInt?, parseRat? dx with
+      | some m, some n, some i, some j, some dx => s!"{fmtRat (gridX m n dx i j)} {fmtRat (gridY m n dx i j)}"
+      | _, _, _, _, _ => "bad-op"
+  | ["centroid", m, n, p, q, dx] => match m.toInt?, n.toInt?, p.toInt?, q.toInt?, parseRat? dx with
+      | some m, some n, some p, some q, some dx =>
+          s!"{fmtRat (centroidSpatial dx (p : Rat) m)} {fmtRat (centroidSpatial dx (q : Rat) n)}"
+      | _, _, _, _, _ => "bad-op"
   | ["padlen", n, p, q] => match n.toInt?, parseRat? (p ++ "/" ++ q) with
       | some n, some Q => s!"{(padOutLen n Q).num}"
       | _, _ => "bad-op"
